@@ -64,9 +64,9 @@ fn drain<R: Read>(mut r: R) -> io::Result<usize> {
     let mut buf = [0u8; 4096];
     let mut total = 0usize;
     let mut interrupts = 0;
-    loop {
+    let res = loop {
         match r.read(&mut buf) {
-            Ok(0) => return Ok(total),
+            Ok(0) => break Ok(total),
             Ok(n) => {
                 if n > buf.len() {
                     panic!("verif: read returned more than the buffer holds");
@@ -79,12 +79,18 @@ fn drain<R: Read>(mut r: R) -> io::Result<usize> {
             Err(e) if e.kind() == io::ErrorKind::Interrupted => {
                 interrupts += 1;
                 if interrupts > 1000 {
-                    return Err(e);
+                    break Err(e);
                 }
             }
-            Err(e) => return Err(e),
+            Err(e) => break Err(e),
         }
+    };
+    // "each read call": a caller may call again after an error or after the end; those calls must return as well
+    // (with anything), without panicking
+    for _ in 0..2 {
+        let _ = r.read(&mut buf);
     }
+    res
 }
 
 const PRESET: [u8; 64] = *b"the quick brown fox jumps over the lazy dog, THE QUICK BROWN FOX";
